@@ -46,9 +46,15 @@ def _array_sig(db, name):
             width = NOM_WIDTH.get(nm)
         if n.get("k") == "Binary" and n.get("op") == "Mul" and lit_int(n["r"]) is not None and "length" in render(n["l"]):
             width = lit_int(n["r"])
+            MUL_TY[name] = n.get("ty")
         if n.get("k") == "Binary" and n.get("op") == "Mul" and lit_int(n["l"]) is not None and "length" in render(n["r"]):
             width = lit_int(n["l"])
+            MUL_TY[name] = n.get("ty")
     return f, prefix, width
+
+
+MUL_TY = {}
+_TYBITS = {"u8": 8, "u16": 16, "u32": 32, "u64": 64, "usize": 64, "i8": 7, "i16": 15, "i32": 31, "i64": 63, "isize": 63}
 
 
 @rule("C11.skip-width", "for each heavy field the parse function and the skip function consume the same number of bytes")
@@ -69,6 +75,14 @@ def skip_width(db, ctx):
             fs, ps_, ws = _array_sig(db, s)
             ctx.ob("pair|%s|%s" % (p, s), pp == ps_ and wp == ws and wp is not None and pp is not None,
                    "%s reads count with %s and items of width %s; %s reads count with %s and skips count*%s" % (p, pp, wp, s, ps_, ws), fn=fs)
+            # the byte count count*width must be computed at a width that holds it for every count the prefix can carry
+            for nm, pre, w_ in ((p, pp, wp), (s, ps_, ws)):
+                ty = MUL_TY.get(nm)
+                if ty is not None and pre in NOM_WIDTH and w_:
+                    need = (((1 << (8 * NOM_WIDTH[pre])) - 1) * w_).bit_length()
+                    ctx.ob("%s|byte-count-width" % nm, _TYBITS.get(ty, 0) >= need,
+                           "%s computes count*%d at type %s (%d bits); a %s count needs %d bits — narrower arithmetic overflows (debug: panic, release: "
+                           "wraps and the following fields are read from the wrong place)" % (nm, w_, ty, _TYBITS.get(ty, 0), pre, need), fn=db.one(nm, None))
     sd = db.one("utf16_string_data", None)
     mul = None
     for n, _ in walk(sd.hir):
